@@ -289,6 +289,27 @@ pub fn run(tier: &str, seed: u64, replay: Option<String>) -> i32 {
                 vec![MEdit::RenameAllNames],
                 vec![MEdit::SetAll { ptr: "/walls".into(), key: "name".into(), value: json!("mismo nombre"), only_if: None }],
             ];
+            let mut unusual = unusual;
+            // closed models on which the indicator computation itself has something to say
+            // (calendars that do not add up to 365 days, windows in walls without a position):
+            // whatever it says, the warnings it returns must be the checker's
+            let mut used_years: Vec<usize> = vec![];
+            let people: std::collections::BTreeSet<String> = closure::collection(&v, &["loads"]).iter().filter_map(|l| l.get("people_schedule").and_then(|x| x.as_str()).map(|x| x.to_string())).collect();
+            for (i, y) in closure::collection(&v, &["schedules", "year"]).iter().enumerate() {
+                if y.get("id").and_then(|x| x.as_str()).map(|id| people.contains(id)).unwrap_or(false) {
+                    used_years.push(i);
+                }
+            }
+            for i in used_years.iter().take(3) {
+                unusual.push(vec![MEdit::ArrayTruncated { ptr: format!("/schedules/year/{}/values", i) }]);
+                unusual.push(vec![MEdit::ArrayDuplicated { ptr: format!("/schedules/year/{}/values", i) }]);
+            }
+            let win_walls: std::collections::BTreeSet<String> = closure::collection(&v, &["windows"]).iter().filter_map(|w| w.get("wall").and_then(|x| x.as_str()).map(|x| x.to_string())).collect();
+            for (i, w) in closure::collection(&v, &["walls"]).iter().enumerate().filter(|(_, w)| w.get("id").and_then(|x| x.as_str()).map(|id| win_walls.contains(id)).unwrap_or(false)).take(3) {
+                let _ = w;
+                unusual.push(vec![MEdit::KeyDeleted { ptr: format!("/walls/{}/geometry/position", i) }]);
+                unusual.push(vec![MEdit::KeyDeleted { ptr: format!("/walls/{}/geometry", i) }]);
+            }
             for (k, es) in unusual.iter().enumerate() {
                 let mut es = es.clone();
                 // half of them together with one broken link
